@@ -499,6 +499,90 @@ pub fn run_c16(ctx: &Ctx) -> Report {
         judge("C16", &obs, &cv, rep, &d, false);
     });
     rep.merge(r);
+    // ---- a statement that has never bound types is executed with new-params-bound = 0, after another
+    //      statement (same number of parameters; closed, still open, or the same id prepared again) did
+    //      bind types on this connection: there is nothing this execution's values could be decoded
+    //      with - types persist per statement, not per connection - so whatever the server does (an
+    //      error reply, an error return), no execution with parameters reaches the backend
+    let n = if ctx.miri { 2 } else { ctx.n(600, 20_000) };
+    let r = par_cases(ctx, "C16", "never-bound", n, |rng, i, rep| {
+        let np = rng.range(1, 4) as usize;
+        let ida = *rng.pick(&[1u32, 2, 7, u32::MAX]);
+        let types = param_types();
+        let tys: Vec<(u8, bool)> = (0..np).map(|_| (*rng.pick(&types), rng.bool())).collect();
+        let params: Vec<Param> = tys.iter().map(|&(t, u)| telling_param(rng, t, u)).collect();
+        // (the shim takes one script per callback, in callback order)
+        let mut cmds = vec![Cmd::prepare(b"a"), Cmd::execute(ida, &params, true)];
+        let mut scripts = vec![Script::PrepOk { id: ida, params: param_cols(np), cols: vec![] }, Script::Q(QProg::completed(1, 0))];
+        if rng.bool() {
+            let params2: Vec<Param> = tys.iter().map(|&(t, u)| telling_param(rng, t, u)).collect();
+            cmds.push(Cmd::execute(ida, &params2, false));
+            scripts.push(Script::Q(QProg::completed(2, 0)));
+        }
+        let how = rng.below(3);
+        let idb = match how {
+            0 => {
+                cmds.push(Cmd::close(ida));
+                if rng.bool() { ida } else { ida.wrapping_add(1) }
+            }
+            1 => ida.wrapping_add(1), // A stays open
+            _ => ida,                 // the same id is prepared again without a close
+        };
+        cmds.push(Cmd::prepare(b"b"));
+        scripts.push(Script::PrepOk { id: idb, params: param_cols(np), cols: vec![] });
+        let at = cmds.len();
+        // values laid out as if the first statement's types applied
+        let params3: Vec<Param> = tys.iter().map(|&(t, u)| telling_param(rng, t, u)).collect();
+        cmds.push(Cmd::execute(idb, &params3, false));
+        scripts.push(Script::Q(QProg::completed(3, 0)));
+        cmds.push(Cmd::ping());
+        let mut case = Case::new(cmds, scripts);
+        vary_transport(rng, &mut case);
+        let obs = run_case(&case);
+        rep.evaluations += 1;
+        if harness_panic(&obs, rep) {
+            return;
+        }
+        let hown = ["closed", "left open", "re-prepared under the same id"][how as usize];
+        rep.counters.class(format!("never-bound: {} parameters, first statement {}", np, hown));
+        let d = || J::obj().set("parameters", np).set("first_statement", hown).set("same_id", ida == idb).set("outcome", obs.outcome.describe());
+        if i == 0 {
+            rep.sample(d());
+        }
+        if let Outcome::Panic { file, line, msg } = &obs.outcome {
+            rep.violations.push(viol("C16", format!("C16 {}", panic_signature(file, *line, msg)), format!("an execution that omits the types of a statement that never bound any made run_on panic: {}", obs.outcome.describe()), d()));
+            return;
+        }
+        // callbacks in order: prepare a, execute(s) of a, [close], prepare b, then nothing with parameters
+        let mut seen_b = false;
+        let mut prepares = 0;
+        for cb in obs.log.cbs.iter() {
+            match &cb.kind {
+                CbKind::Prepare(_) => {
+                    prepares += 1;
+                    if prepares == 2 {
+                        seen_b = true;
+                    }
+                }
+                CbKind::Execute { id, params } if seen_b => {
+                    rep.violations.push(viol(
+                        "C16",
+                        "C16 types-from-another-statement".into(),
+                        format!("statement {} never bound parameter types, yet its execution (new-params-bound = 0) reached the backend with {} parameters decoded as {:?}: types bound by another statement of the connection", id, params.len(), params.iter().map(|p| p.coltype).collect::<Vec<_>>()),
+                        d(),
+                    ));
+                    return;
+                }
+                _ => {}
+            }
+        }
+        let _ = at;
+        rep.counters.inc("never_bound_executions_refused");
+    });
+    rep.merge(r);
+    if ctx.strict() {
+        rep.require("never_bound_executions_refused", 100);
+    }
     rep.merge(super::mega::run(ctx, "C16", 1500, 60000));
     if ctx.strict() {
         rep.require("reuse_executions", 100);
